@@ -18,10 +18,11 @@ Record quirks := MkQuirks {
   q_splitters_accumulate : bool;  (* D30: every start appends to Store.sourceSplitters; finishSnapshot panics unless exactly one *)
   q_keep_slot : bool;             (* D18b: Operator.HandleDeploy leaves o.checkpoint in place *)
   q_keep_savepoint : bool;        (* seeded C15-3: AbortPendingCheckpoint keeps a pending snapshot flagged as a savepoint *)
-  q_ticker_once : bool            (* seeded C15r2-1: the checkpoint ticker is created only if none was ever created *)
+  q_ticker_once : bool;           (* seeded C15r2-1: the checkpoint ticker is created only if none was ever created *)
+  q_keep_complete_slot : bool     (* seeded C15r5-3: HandleDeploy clears o.checkpoint only while it is half aligned *)
 }.
-Definition current : quirks := MkQuirks false false false false false.
-Definition original : quirks := MkQuirks true true true false false.
+Definition current : quirks := MkQuirks false false false false false false.
+Definition original : quirks := MkQuirks true true true false false false.
 
 Inductive status := Init | Paused | Starting | Running.
 Definition status_code (s : status) : N :=
@@ -269,30 +270,45 @@ Definition exec (c : cfg) (l : list op) : st := fst (run c init l).
 Record slot := MkSlot { sl_id : N; sl_wait : list N }.           (* o.checkpoint: id, runners still awaited *)
 Record oper := MkOper { o_runners : list N; o_slot : option slot }.
 
+(* HandleDeploy clears the slot, whatever state it is in *)
 Definition oper_deploy (q : quirks) (o : oper) (runners : list N) : oper :=
-  MkOper runners (if q_keep_slot q then o_slot o else None).
+  MkOper runners
+    (if q_keep_slot q then o_slot o
+     else match o_slot o with
+          | Some sl => if q_keep_complete_slot q && (match sl_wait sl with [] => true | _ => false end) then Some sl else None
+          | None => None
+          end).
 
-(* result: 0 = barrier registered, 1 = rejected (id mismatch), 2 = all barriers in: checkpoint taken and
-   acknowledged, 3 = the request is parked by alignSender (a slot exists and this sender's barrier is already in) *)
-Definition oper_barrier (o : oper) (sender id : N) : oper * N :=
+(* all barriers are in: the operator checkpoints its database and reports to the job. When the job refuses the ack
+   (OperatorCheckpointComplete returns an error: the checkpoint was aborted / is not the pending one) handleCheckpointBarrier
+   returns before it clears o.checkpoint: the slot stays, complete but unreported (sl_wait = []). *)
+Definition oper_finish (o : oper) (id : N) (accept : bool) : oper * N :=
+  if accept then (MkOper (o_runners o) None, 2) else (MkOper (o_runners o) (Some (MkSlot id [])), 5).
+
+(* The slot has three states: None (empty), Some with runners awaited (aligning), Some with none awaited (complete but
+   unreported). result: 0 = barrier registered, 1 = rejected (id mismatch), 2 = all barriers in: checkpoint taken and
+   acknowledged, 3 = the request is parked by alignSender (aligning, and this sender's barrier is already in; with a
+   complete slot the channel is closed and nothing parks), 5 = all barriers in but the job refused the ack *)
+Definition oper_barrier (o : oper) (sender id : N) (accept : bool) : oper * N :=
   match o_slot o with
-  | Some sl0 => if negb (mem sender (sl_wait sl0)) then (o, 3) else
+  | Some sl0 =>
+      if (match sl_wait sl0 with [] => false | _ => true end) && negb (mem sender (sl_wait sl0)) then (o, 3) else
       if negb (sl_id sl0 =? id) then (o, 1)
       else match rem sender (sl_wait sl0) with
-           | [] => (MkOper (o_runners o) None, 2)
+           | [] => oper_finish o id accept
            | w => (MkOper (o_runners o) (Some (MkSlot id w)), 0)
            end
   | None =>
       match rem sender (o_runners o) with
-      | [] => (MkOper (o_runners o) None, 2)
+      | [] => oper_finish o id accept
       | w => (MkOper (o_runners o) (Some (MkSlot id w)), 0)
       end
   end.
 
-Fixpoint oper_barriers (o : oper) (senders : list N) (id : N) : oper * list N :=
+Fixpoint oper_barriers (o : oper) (senders : list N) (id : N) (accept : bool) : oper * list N :=
   match senders with
   | [] => (o, [])
-  | x :: t => let '(o1, r) := oper_barrier o x id in let '(o2, rs) := oper_barriers o1 t id in (o2, r :: rs)
+  | x :: t => let '(o1, r) := oper_barrier o x id accept in let '(o2, rs) := oper_barriers o1 t id accept in (o2, r :: rs)
   end.
 
 (* ---------- the operator's keyed state across redeployments (workers/operator: HandleDeploy opens a fresh DKV from
